@@ -621,6 +621,11 @@ impl<'c, W: WorldDriver> Session<'c, W> {
                 m.creations += 1;
                 m.created_log.push(raw);
                 m.max_gen_seen = m.max_gen_seen.max(raw.1);
+                let wrapped = m.last_gen.insert(raw_slot(raw), raw.1).map(|g| raw.1 < g).unwrap_or(false);
+                if wrapped {
+                    self.labels.insert("generation_wrapped");
+                }
+                let m = &mut self.sims[si].archs[a];
                 if raw.1 >= 3 {
                     self.label("reuse_depth_ge2");
                 }
